@@ -89,6 +89,8 @@ def register():
     @command
     def rep(x, n: int, sep=","):
         _log("root", "rep", x, n, sep)
+        if n > 10000:
+            raise ValueError("rep: too many repetitions")      # (a link can produce an astronomically large count: fail, do not allocate)
         return _str(sep).join([_str(x)] * n)
 
     @command
